@@ -247,3 +247,67 @@ def check_find(x, want_texts, start, end, reverse, result):
         if lacking:
             bad.append(('C17', 'find_end', 'found_end None but %d lacks' % lacking[0]))
     return bad
+
+
+# ---------------------------------------------------------------------------- C14: which strings are directives
+def _colour_function_ok(item):
+    """hand-written reading of the documented function forms:
+    [fg_|bg_|ul_|dul_] rgb( [ '[' | '(' ] c , c , c [ ')' | ']' ] )   |  … rgb( … c … )  |  … colo[u]r256( … c … )
+    c = blanks, then 0x<hex digits> or <decimal digits>, then blanks"""
+    rest = None
+    for pfx in ('dul_', 'ul_', 'bg_', 'fg_', ''):
+        if item.startswith(pfx):
+            r = item[len(pfx):]
+            for fn, counts in (('rgb(', (1, 3)), ('color256(', (1,)), ('colour256(', (1,))):
+                if r.startswith(fn):
+                    rest, ncomp = r[len(fn):], counts
+                    break
+            if rest is not None:
+                break
+    if rest is None:
+        return False
+    if not rest.endswith(')'):
+        return False
+    body = rest[:-1]
+    if body[:1] in ('[', '('):
+        body = body[1:]
+    bodies = [body]
+    if body[-1:] in (')', ']'):
+        bodies.append(body[:-1])
+    def comp(c):
+        c = c.strip(' \t\n\r\x0b\x0c\x1c\x1d\x1e\x1f\x85\xa0')
+        if c.startswith('0x'):
+            h = c[2:]
+            return h != '' and all(ch in '0123456789abcdefABCDEF' for ch in h)
+        return c != '' and all(ch in '0123456789' for ch in c)
+    for b in bodies:
+        parts = b.split(',')
+        if len(parts) in ncomp and all(comp(q) for q in parts):
+            return True
+    return False
+
+
+def format_string_accepts(s, member_names):
+    """does the documented grammar accept the format string `s`?  None = not decided here"""
+    if s == '[':
+        return False            # verbatim and empty: rejected
+    if s == '' or s.startswith('['):
+        return True
+    for item in s.split(';'):
+        if item == '':
+            continue
+        if item.upper().replace(' ', '_').replace('-', '_') in member_names:
+            continue
+        if '(' in item or ')' in item:
+            if not item.isascii():
+                return None
+            if _colour_function_ok(item):
+                continue
+            return False
+        try:
+            v = int(item)
+        except ValueError:
+            return False
+        if v < 0:
+            return False
+    return True
